@@ -137,6 +137,22 @@ impl Property for C09 {
     fn generate(&self, t: &mut Tape, ctx: &Ctx) -> Case {
         let format = ["json", "text", "csv"][t.draw(3)].to_string();
         let mut case = Case { defs: String::new(), query: String::new(), input: Vec::new(), joined_input: Vec::new(), format, kind: String::new(), structured: None };
+        if t.chance(1, 25) {
+            // date_trunc cuts to a boundary of the local clock in every zone (also where the offset changes by half an hour)
+            case.kind = "trunc-invariant".into();
+            case.format = "json".into();
+            case.defs = "CREATE TABLE t(line = '^ts=([^;]*);', line[1] => ts TIMESTAMP);".into();
+            case.query = "SELECT EXTRACT(MINUTE FROM date_trunc('hour', ts)) AS m, EXTRACT(SECOND FROM date_trunc('minute', ts)) AS s, EXTRACT(SECOND FROM date_trunc('hour', ts)) AS hs FROM t".into();
+            let n = 1 + t.draw(6);
+            let lines: Vec<String> = (0..n)
+                .map(|_| {
+                    let base = *t.pick(&["2021-04-04 01:45:10", "2021-10-03 02:45:10", "2021-04-04 01:15:59", "2021-10-03 01:59:59", "2021-06-01 12:34:56", "2011-12-29 23:45:10", "2021-03-28 03:10:10", "2021-11-07 00:45:10"]);
+                    format!("ts={};", if t.chance(1, 3) { (*t.pick(&DST_TIMES)).to_string() } else { base.to_string() })
+                })
+                .collect();
+            case.input = lines_to_bytes(&lines);
+            return case;
+        }
         match t.weighted(&[4, 3, 2, 1, 1, 3]) {
             0 => {
                 case.kind = "select-hazard".into();
@@ -292,6 +308,7 @@ impl Property for C09 {
             "join" => "join",
             "regex-table" => "regex-table",
             "json-table" => "json-table",
+            "trunc-invariant" => "timezone",
             _ => "timezone",
         });
         if std::str::from_utf8(&case.input).is_err() {
@@ -311,6 +328,24 @@ impl Property for C09 {
         }
         if out.result.is_err() {
             obs.label("execution-error");
+        }
+        if case.kind == "trunc-invariant" {
+            obs.label("trunc-invariant");
+            for rec in out.records() {
+                if let Ok(j) = crate::value::parse_json(&rec) {
+                    for key in ["m", "s", "hs"] {
+                        match j.get(key) {
+                            Some(crate::value::J::Num(n)) if n.parse::<f64>().map(|x| x != 0.0).unwrap_or(true) => {
+                                return Err(Failure::new(
+                                    "date_trunc: the result is not on a boundary of the local clock",
+                                    format!("{} = {} (minute of date_trunc('hour', ts) / second of date_trunc('minute' | 'hour', ts) must be 0)\n  record {}\n  {}", key, n, rec, context()),
+                                ));
+                            }
+                            _ => {}
+                        }
+                    }
+                }
+            }
         }
         // "silently wraps a number": an `as` cast or a wrapping operation does not panic even in the checked build, so
         // INT results are also judged exact-or-error by the reference evaluator (TZ=UTC, unmutated input)
